@@ -88,7 +88,8 @@ Section Compressor.
   Definition compress_frame (lv : level) (slice : nat) (wsize : Z) (hash32 : option (list Z -> list Z))
              (cs : cstate) (r : reader) : res (list Z * cstate * reader) :=
     let cs := creset cs in
-    let hdr := frame_header_bytes wsize (is_some hash32) in
+    (* the declared window is at least the maximum block size (repair of finding F11) *)
+    let hdr := frame_header_bytes (Z.max wsize MAX_BLOCK_SIZE) (is_some hash32) in
     let* (out, cs', r') := compress_loop (S (length (rd_data r))) lv slice cs r hdr in
     ROk (out ++ match hash32 with Some h => h (rd_data r) | None => [] end, cs', r').
 End Compressor.
